@@ -69,11 +69,8 @@ func (a *AddFeatures) fillFromFeature(f *geojson.Feature, namespace b6.Namespace
 		area.AreaID = b6.MakeAreaID(namespace, id)
 		loops := make([]*s2.Loop, len(geometry))
 		for j, loop := range geometry {
-			points := make([]s2.Point, len(loop))
-			for k, point := range loop {
-				points[k] = point.ToS2Point()
-			}
-			loops[j] = s2.LoopFromPoints(points)
+			// ToS2Loop drops the closing vertex GeoJSON repeats at the end of a ring
+			loops[j] = geojson.LineString(loop).ToS2Loop()
 			if loops[j].Area() > 2.0*math.Pi {
 				loops[j].Invert()
 			}
@@ -86,11 +83,7 @@ func (a *AddFeatures) fillFromFeature(f *geojson.Feature, namespace b6.Namespace
 		for j, polygon := range geometry {
 			loops := make([]*s2.Loop, len(polygon))
 			for k, loop := range polygon {
-				points := make([]s2.Point, len(loop))
-				for l, point := range loop {
-					points[l] = point.ToS2Point()
-				}
-				loops[k] = s2.LoopFromPoints(points)
+				loops[k] = geojson.LineString(loop).ToS2Loop()
 				if loops[k].Area() > 2.0*math.Pi {
 					loops[k].Invert()
 				}
